@@ -42,6 +42,9 @@ class SpotSys:
         self.Q = fr(balance)
         self.B = F(0)
         self.ref = []   # dicts: side,type,q,p,live
+        # start from a non-initial state: a holding with a ladder of resting exits (ops outside the BFS alphabet allowed)
+        for op in cfg.get('prefix', []):
+            self.apply(tuple(op))
 
     # ---------------------------------------------------------------- alphabet
     def enabled(self):
@@ -55,8 +58,8 @@ class SpotSys:
                 ops.append(('buy', 'LIMIT', q * u, pr * p))
             ops.append(('buy', 'STOP', 0.2 * u, 33 * p / 10))
             for typ, pr in (('MARKET', 10.0), ('LIMIT', 11.0), ('STOP', 9.0)):
-                for q in ('all', 'half', 0.1 * u, 0.3 * u):
-                    if q in ('all', 'half') and self.B == 0:
+                for q in ('all', 'half', 0.1 * u, 0.3 * u) + (('free',) if self.cfg.get('prefix') else ()):
+                    if q in ('all', 'half', 'free') and self.B == 0:
                         continue
                     ops.append(('sell', typ, q, pr * p))
         for i in live:
@@ -93,6 +96,13 @@ class SpotSys:
             q = self.ex.assets[base]
         elif q == 'half':
             q = self.ex.assets[base] / 2
+        elif q == 'free':
+            # "sell whatever is not yet committed": the exact decimal remainder next to the resting sells of the competing kind
+            kind = 'LIMIT' if typ == 'MARKET' else typ
+            rest = self.B - sum(o['q'] for o in self.ref if o['live'] and o['side'] == 'sell' and o['type'] == kind)
+            if rest <= 0:
+                return 'end'
+            q = float(rest)
         qf, pf = fr(q), fr(price)
         # reference verdict
         if side == 'buy':
@@ -103,7 +113,9 @@ class SpotSys:
             else:
                 need = qf + sum(o['q'] for o in self.ref if o['live'] and o['side'] == 'sell' and o['type'] == typ)
             have = self.B
-        dontcare = near(need, have)
+        # dust from float fee arithmetic makes verdicts next to the threshold dont-care - but not AT it: when the exact
+        # decimal account says "exactly enough", the order must be accepted (the implementation computes in decimal too)
+        dontcare = near(need, have) and need != have
         expect_reject = need > have
         fn = {'MARKET': self.api.market_order, 'LIMIT': self.api.limit_order, 'STOP': self.api.stop_order}[typ]
         try:
@@ -203,13 +215,17 @@ def configs(ctx):
     out = []
     for fee in ((0.001,) if ctx.quick else (0, 0.001, 0.00075)):
         out.append({'fee': fee, 'balance': 25 * u * p, 'u': u, 'p': p})
+    # a holding of 1.0 with two resting exits of 0.1 and 0.7 (decimal fractions that are inexact in binary), limit and stop ladders
+    for typ, pr in (('LIMIT', 11.0), ('STOP', 9.0)):
+        out.append({'fee': 0.0, 'balance': 25 * u * p, 'u': u, 'p': p, 'depth': 4,
+                    'prefix': [['buy', 'MARKET', 1.0 * u, 10 * p], ['sell', typ, 0.1 * u, pr * p], ['sell', typ, 0.7 * u, pr * p]]})
     return out
 
 
 def run(ctx):
     depth = 5 if ctx.quick else 6
     for cfg in configs(ctx):
-        bfs.search(ctx, 'spot', cfg, depth)
+        bfs.search(ctx, 'spot', cfg, cfg.get('depth', depth) + (0 if ctx.quick or 'depth' not in cfg else 1))
     cov = ctx.coverage
     cov['evaluations'] = cov['transitions']
     cov['distinct_nontrivial'] = cov['states']
